@@ -12,5 +12,6 @@ CONSTANTS
   MaxPubs = 6
   MaxOps = 12
   Deterministic = TRUE
-INVARIANTS TypeOK HistoryIsRetainedSuffix
+INVARIANTS TypeOK
+PROPERTIES HistoryIsRetainedSuffix
 CHECK_DEADLOCK FALSE
